@@ -3,7 +3,7 @@ import re
 
 from lib import mir
 from .rtcommon import (configs, rt, every_return_passes, bool_switches_on_call, discr_switches, variant_target,
-                       calls_in)
+                       ind_calls)
 
 CLAIM = dict(
     level="other", engine="mirfacts+witness", design="DESIGN.md §5 C19",
@@ -20,6 +20,7 @@ CLAIM = dict(
 CONV = re.compile(r"::(try_into|try_from|unwrap|expect|into|from)$")
 PTR_ADD = re.compile(r"ptr::(mut_ptr|const_ptr)::<impl \*(mut|const) T>::(add|offset|byte_add)$")
 COUNT_VARIANTS = {"Completed", "Dropped", "Cancelled"}
+TAKE = ["mem::take", "mem::replace"]
 
 
 # --------------------------------------------------------------------------- helpers (module-local)
@@ -125,9 +126,18 @@ def guards_of(f, site):
     return [(o, vals) for _, vals, o in f.guard_edges(site)]
 
 
-def guarded_by_variant(f, site, decode_bbs, names):
-    """site only reachable through a ReturnCode discriminant edge whose variants are within `names`."""
+def guarded_by_variant(f, site, decode_bbs, names, depth=2):
+    """site only reachable through a ReturnCode discriminant edge whose variants are within `names`
+    (directly, or through a bool temporary as produced by `matches!`)."""
     for o, vals in guards_of(f, site):
+        if o.get("kind") == "place" and o.get("ndefs", 0) > 1 and "local" in o and depth > 0 and vals in ([0], ["else"]):
+            want = 0 if vals == [0] else 1
+            defs = [(b, pl) for b, i, kind, pl in f.defs.get(o["local"], []) if kind == "assign"]
+            if defs and all(pl["k"] == "use" and "c" in pl["o"] and "v" in pl["o"] for _, pl in defs):
+                hit = [b for b, pl in defs if int(pl["o"]["v"]) == want]
+                if hit and all(guarded_by_variant(f, b, decode_bbs, names, depth - 1) for b in hit):
+                    return True
+            continue
         if o.get("kind") != "discr" or "ReturnCode" not in o.get("ty", ""):
             continue
         src = leaves(f, o["of"])
@@ -188,6 +198,7 @@ def one(rep, c, cfg):
     r7(rep, c, tag, cfg)
     r8(rep, c, tag)
     r9(rep, c, tag)
+    r10(rep, c, tag, cfg)
 
 
 # --------------------------------------------------------------------------- R19.1
@@ -626,12 +637,12 @@ def r4(rep, c, tag):
         f = c.method("AbiBuffer", "take_vec")
         rep.saw(f)
         nm = "AbiBuffer::take_vec"
-        tk = [x for x in f.calls("mem::take") if self_field(f.origin(x.args[0]), "rust_storage")]
+        tk = [x for x in f.calls(TAKE) if self_field(f.origin(x.args[0]), "rust_storage")]
         rep.floor(R, f"{nm}: mem::take(&mut self.rust_storage) {tag}", len(tk), 1)
         tkb = {x.bb for x in tk}
 
         def from_take(o):
-            return o.get("kind") == "call" and o["call"].bb in tkb and o["call"].matches("mem::take")
+            return o.get("kind") == "call" and o["call"].bb in tkb and o["call"].matches(TAKE)
         forget_pair(rep, f, tag, nm, from_take)
         rep.ob(R, f"{nm}: every path empties self.rust_storage (a second call finds nothing) {tag}",
                bool(tk) and every_return_passes(f, list(tkb)) and no_second(f, tkb), "", f.loc())
@@ -1199,3 +1210,63 @@ def r9(rep, c, tag):
             rep.ob(R, f"{op}::result_into_cancel returns the result unchanged {tag}",
                    o.get("kind") == "arg" and o.get("n") == 2 and not o.get("proj") and not f.calls(), "", f.loc())
     rep.guard(R, f"shims {tag}", shims)
+
+
+# --------------------------------------------------------------------------- R19.10
+def r10(rep, c, tag, cfg):
+    R = "R19.10"
+    BUILTINS = ("start_write", "start_read", "cancel_write", "cancel_read", "drop_writable", "drop_readable", "new")
+
+    def ends():
+        for op, end, cancel in (("StreamWriteOp", "writer", "cancel_write"), ("StreamReadOp", "reader", "cancel_read")):
+            other = "cancel_read" if cancel == "cancel_write" else "cancel_write"
+            f = c.method(op, "in_progress_cancel", trait="WaitableOp")
+            rep.saw(f)
+            cs = f.calls("StreamOps::" + cancel)
+            o = f.place_origin({"l": 0})
+            ok = len(cs) == 1 and not f.calls("StreamOps::" + other) and same_site(o, {"kind": "call", "call": cs[0]})
+            if ok:
+                ho = f.origin(cs[0].args[1])
+                ok = (arg_field(ho, 1, "handle") and ("." + end) in ho.get("proj", [])) or \
+                    (is_call(ho, "RawStreamReader::handle") and arg_field(f.origin(ho["call"].args[0]), 1, end))
+            rep.ob(R, f"{op}::in_progress_cancel: {cancel}(this end's handle), code returned unchanged {tag}", ok,
+                   "the cancel built-in of the other direction (or another handle) traps in the host", f.loc())
+            f = c.method(op, "in_progress_waitable", trait="WaitableOp")
+            rep.saw(f)
+            o = f.place_origin({"l": 0})
+            ok = (arg_field(o, 1, "handle") and ("." + end) in o.get("proj", [])) or \
+                (is_call(o, "RawStreamReader::handle") and arg_field(f.origin(o["call"].args[0]), 1, end))
+            rep.ob(R, f"{op}::in_progress_waitable is this end's handle {tag}", ok, "", f.loc())
+        for ty, want, other in (("RawStreamWriter", "drop_writable", "drop_readable"),
+                                ("RawStreamReader", "drop_readable", "drop_writable")):
+            f = c.method(ty, "drop", trait="Drop")
+            rep.saw(f)
+            ds = f.calls("StreamOps::" + want)
+            rep.ob(R, f"Drop for {ty}: {want} at most once, never {other} {tag}",
+                   len(ds) == 1 and no_second(f, [ds[0].bb]) and not f.calls("StreamOps::" + other), "", f.loc())
+    rep.guard(R, f"ends {tag}", ends)
+
+    def vtable():
+        n = 0
+        for name in BUILTINS + ("lower", "lift", "dealloc_lists"):
+            f = c.method("StreamVtable", name, trait="StreamOps")
+            rep.saw(f)
+            ic = ind_calls(f)
+            via = []
+            for x in ic:
+                o = peel(f, f.origin(x.ind), re.compile(r"Option::<T>::(unwrap|expect|unwrap_unchecked)$"))
+                if ("." + name) in o.get("proj", []) or o.get("place", "").endswith("." + name):
+                    via.append(x)
+            n += len(via)
+            rep.ob(R, f"<&StreamVtable<T> as StreamOps>::{name} calls the vtable's `{name}` entry and no other {tag}",
+                   len(ic) == 1 and len(via) == 1, f"{len(ic)} indirect call(s), {len(via)} through .{name}", f.loc())
+        rep.floor(R, f"vtable forwarders {tag}", n, 10)
+        if cfg == "full":
+            for name in BUILTINS:
+                f = c.method("UnitStreamOps", name, trait="StreamOps")
+                rep.saw(f)
+                cs = [x for x in f.calls() if x.matches(re.compile(r"unit_stream::unit_\w+$"))]
+                rep.ob(R, f"<UnitStreamOps as StreamOps>::{name} calls the unit built-in `unit_{name.replace('start_', '')}` {tag}",
+                       len(cs) == 1 and cs[0].matches(re.compile(r"unit_stream::unit_" + name.replace("start_", "") + "$")),
+                       "", f.loc())
+    rep.guard(R, f"vtable {tag}", vtable)
